@@ -5,6 +5,7 @@
 // octet) must be accepted in every mode; nothing is demanded in between.
 #include "../harness/rc_glue.hpp"
 #include "../harness/gen.hpp"
+#include "../harness/litshapes.hpp"
 #include "../harness/lib.hpp"
 
 using namespace vf;
@@ -76,69 +77,10 @@ static std::optional<Failure> check_one(Run &R, const Bytes &d) {
 }
 static bool run_one(Run &R, const Bytes &b) { auto f = check_one(R, b); return !(f && !R.fail(*f)); }
 
-static Bytes grp(int w, int i) { static const char *H = "123456789abcdefABCDEF0"; Bytes g; for (int k = 0; k < w; k++) g += H[(i * 3 + k * 5) % 22]; return g; }
-
 static void stage_shapes(Run &R) {
     uint64_t total = 0, idx = 0;
     auto go = [&](const Bytes &b) -> bool { total++; if ((int) (idx++ % R.a.nworkers) != R.a.worker) return true; return run_one(R, b); };
-    static const char *TAGS[] = {"IPv6:", "", "ipv6:", "foo:", "IPv4:", ":"};
-    static const int WID[] = {1, 4, 5, 0};
-    int ntags = R.a.thorough ? 6 : 4;
-    for (int before = 0; before <= 8; before++) for (int after = 0; after <= 8; after++) for (int nulls = 0; nulls <= 2; nulls++)
-        for (int tail = 0; tail < 2; tail++) for (int wi = 0; wi < 4; wi++) for (int t = 0; t < ntags; t++) {
-            if (nulls == 0 && after > 0) continue;
-            Bytes a;
-            for (int i = 0; i < before; i++) { if (i) a += ':'; a += grp(i == before / 2 ? WID[wi] : 1 + (i % 4), i); }
-            if (nulls >= 1) { a += "::"; for (int i = 0; i < after; i++) { if (i) a += ':'; a += grp(i == 0 ? WID[wi] : 1 + (i % 4), i + 3); } }
-            if (nulls >= 2) a += "::1";
-            if (tail) { if (!a.empty() && a.back() != ':') a += ':'; a += "192.0.2.128"; }
-            if (!go("[" + Bytes(TAGS[t]) + a + "]")) return;
-        }
-    // every octet value 0..300 in every position, bare and as IPv6 tail
-    for (int pos = 0; pos < 4; pos++) for (int v = 0; v <= 300; v++) {
-        Bytes q; for (int i = 0; i < 4; i++) { if (i) q += '.'; q += i == pos ? std::to_string(v) : std::to_string(7 + i); }
-        for (const Bytes &d : {"[" + q + "]", "[IPv6:::ffff:" + q + "]", "[IPv6:1:2:3:4:5:6:" + q + "]", "[0" + q + "]"}) if (!go(d)) return;
-    }
-    // longest spellings: every combination of group widths {1,4} for IPv6-full (8 groups) and IPv6v4-full (6 groups + quad with 1- or
-    // 3-digit octets), tagged and untagged: literal lengths up to 46 / 52 octets must all be accepted
-    for (int mask = 0; mask < 256; mask++) {
-        Bytes a; for (int i = 0; i < 8; i++) { if (i) a += ':'; a += (mask >> i) & 1 ? "fedc" : "1"; }
-        if (!go("[IPv6:" + a + "]")) return; if ((mask & 15) == 0 && !go("[" + a + "]")) return;
-        if (mask < 64) for (const char *q : {"1.2.3.4", "255.255.255.255", "192.0.2.128", "100.20.3.255"}) {
-            Bytes b; for (int i = 0; i < 6; i++) { if (i) b += ':'; b += (mask >> i) & 1 ? "fedc" : "0"; }
-            if (!go("[IPv6:" + b + ":" + q + "]")) return; if ((mask & 7) == 7 && !go("[" + b + ":" + q + "]")) return;
-        }
-    }
-    for (int before = 0; before <= 4; before++) for (int after = 0; before + after <= 4; after++) for (const char *q : {"9.8.7.6", "255.255.255.255"}) {   // IPv6v4-comp, full-width groups
-        Bytes a; for (int i = 0; i < before; i++) { a += "abcd"; if (i + 1 < before) a += ':'; } a += "::"; for (int i = 0; i < after; i++) { a += "ef01:"; } a += q;
-        if (!go("[IPv6:" + a + "]")) return;
-    }
-    // every byte value at each of the five positions of the tag (only the case variants of "IPv6:" are a tag)
-    for (int pos = 0; pos < 5; pos++) for (int x = 1; x < 256; x++) { if (x == '@') continue; Bytes tag = "IPv6:"; tag[pos] = (char) x;
-        for (const char *a : {"2001:db8::1", "1:2:3:4:5:6:7:8", "::ffff:1.2.3.4"}) if (!go("[" + tag + a + "]")) return; }
-    // octets far beyond the range: values that wrap to <= 255 modulo 2^8, 2^16, 2^31, 2^32, 2^64 when accumulated in a
-    // narrow or overflowing integer, long zero-padded and long all-nine runs
-    static const char *BIG[] = {"256", "257", "511", "512", "65536", "65537", "65791", "2147483648", "2147483649", "4294967295", "4294967296", "4294967297", "4294967551", "4294967552",
-                                "8589934593", "9999999999", "18446744073709551615", "18446744073709551616", "18446744073709551617", "18446744073709551871", "340282366920938463463374607431768211457",
-                                "00000000000000000000000000000000000000001", "0000000000255", "0000000000256", "99999999999999999999999999999999", "1e3", "0x10", "1_0"};
-    for (int pos = 0; pos < 4; pos++) for (const char *b : BIG) {
-        Bytes q; for (int i = 0; i < 4; i++) { if (i) q += '.'; q += i == pos ? Bytes(b) : std::to_string(9 + i); }
-        for (const Bytes &d : {"[" + q + "]", "[IPv6:::ffff:" + q + "]", "[IPv6:1:2:3:4:5:6:" + q + "]"}) if (!go(d)) return;
-    }
-    for (const char *g : {"10000", "00000", "fffff", "0ffff", "123456789", "ffffffffffffffff1", "-1", "+1", " 1"}) for (int pos : {0, 3, 7})
-        { Bytes a; for (int i = 0; i < 8; i++) { if (i) a += ':'; a += i == pos ? Bytes(g) : Bytes("1"); } if (!go("[IPv6:" + a + "]")) return; }
-    // digit counts and dot placement
-    for (const char *q : {"1.2.3", "1.2.3.4.5", "1.2.3.4.", ".1.2.3.4", "1..2.3.4", "1.2.3.4..", "001.002.003.004", "0001.2.3.4", "1.2.3.0004", "256.1.1.1", "1.2.3.256", "0.0.0.0", "0.1.2.3", "1.2.3.4", "255.255.255.255",
-                          "1.2.3.4a", "a.b.c.d", "1.2.3.-4", "1.2.3.+4", " 1.2.3.4", "1.2.3.4 ", "1,2,3,4", "0x1.2.3.4", "1.2.3.4/8", "12345678", "1.2.3.4\t"})
-        for (const Bytes &d : {"[" + Bytes(q) + "]", "[IPv6:::" + Bytes(q) + "]", "[IPv6:" + Bytes(q) + "]", "[IPv4:" + Bytes(q) + "]"}) if (!go(d)) return;
-    // bytes after ']' and before '['
-    static const unsigned char SB[] = {'x', '.', ']', '[', ' ', ':', '1', '\t', 0x80, '@' + 1, 'c', '-'};
-    for (const char *base : {"[1.2.3.4]", "[IPv6:::1]", "[IPv6:1:2:3:4:5:6:7:8]", "[2001:db8::1]", "[abcdefgh]"}) {
-        for (unsigned char x : SB) { if (!go(Bytes(base) + (char) x)) return; if (!go(Bytes(1, (char) x) + base)) return;
-            for (unsigned char y : SB) { if (!go(Bytes(base) + (char) x + (char) y)) return; for (unsigned char z : {(unsigned char) ']', (unsigned char) '2', (unsigned char) '.'}) if (!go(Bytes(base) + (char) x + (char) y + (char) z)) return; } }
-        if (!go(Bytes(base) + ".com")) return; if (!go(Bytes(base) + ":1:2")) return; if (!go("[" + Bytes(base))) return; if (!go(Bytes(base) + "]")) return;
-        Bytes nb = base; nb.pop_back(); if (!go(nb)) return;
-    }
+    if (!lit::shapes(R.a.thorough, go)) return;
     R.space("C05 IPv6 shapes (before 0-8 x after 0-8 x '::' 0-2 x v4 tail x widths {1,4,5,0} x tags), octet values 0-300 x 4 positions x 4 frames, dot/digit shapes, bytes after ']' / before '['", total);
 }
 
